@@ -81,9 +81,12 @@ fn ctx_model_line<S: ShortGroupSignatureScheme>(em: &mut Emitter, suite: &str, p
             .filter(|e| Some(e.tid) == tid && e.kind == 0 && e.label != b"dom-sep")
             .map(|e| format!("{}={}", String::from_utf8_lossy(&e.label).replace(' ', "_"), if e.data.is_empty() { "-".to_string() } else { hexs(&e.data) }))
             .collect();
-        let pkb = {
-            use credx::knox::short_group_sig_core::short_group_traits::PublicKey as _;
-            hexs(public.verifying_key.to_bytes().as_ref())
+        // the bytes the suites hash are those of the key type's own (inherent) `to_bytes`, not of the trait method
+        let pkt = serde_json::to_string(&public.verifying_key).unwrap_or_default();
+        let pkb = if suite == "bbs" {
+            serde_json::from_str::<credx::knox::bbs::PublicKey>(&pkt).map(|k| hexs(k.to_bytes().as_ref())).unwrap_or_else(|_| "-".into())
+        } else {
+            serde_json::from_str::<credx::knox::ps::PublicKey>(&pkt).map(|k| hexs(k.to_bytes().as_ref())).unwrap_or_else(|_| "-".into())
         };
         em.op(
             format!("bl.items {} {} {} {} {} {}", suite, pkb, g1_hex_c(&G1Projective::GENERATOR), rch, ctx["commitment"].as_str().unwrap_or("-"), sc_hex(&req.nonce)),
